@@ -227,6 +227,10 @@ def correspond(ctx: Ctx, tp, presets):
         n = rng.randint(2, 3)
         gs = qp.random_grid_circuit(rng, n, rng.randint(1, 7), ALL_KINDS)
         cases.append(("gateSetConv", n, gs, ["gateSetConv:1:" + ",".join(s)], (lambda s=s: T.GateSetConversionTranspiler(s))))
+        # the same conversion without the final validation (the form the Quantinuum preset uses), target set given as a set / tuple
+        gs2 = qp.random_grid_circuit(rng, n, rng.randint(1, 7), ALL_KINDS)
+        cases.append(("gateSetConv-novalidate", n, gs2, ["gateSetConv:0:" + ",".join(s)],
+                      (lambda s=s, f=rng.choice([set, tuple, list]): T.GateSetConversionTranspiler(f(s), validation=False))))
     for _ in range(N):
         rots = [k for k in ("RX", "RY", "RZ") if rng.random() < 0.6]
         fav = [k for k in c1 if rng.random() < 0.3]
@@ -271,6 +275,7 @@ def correspond(ctx: Ctx, tp, presets):
         ctx.traces += 1
         if st == "err" or qp.same_gates(real, qp.dec_circuit(r[3:])):
             ctx.disagree("cliffordApprox", qp.enc_circuit(gs), str(real)[:300], r[:300])
+    clifford_approx_correspond(ctx, T)
 
 
 def describe(tr) -> list[str]:
@@ -374,23 +379,38 @@ def nongrid_angle(rng):
     return rng.uniform(-4 * math.pi, 4 * math.pi)
 
 
-def random_real_circuit(rng, n, length, kinds, um=True):
+def random_real_circuit(rng, n, length, kinds, um=True, angle_forms=False, cbit_count=0):
+    """`angle_forms`: some angles are passed as Python ints / numpy scalars (argument forms the in-tree callers never use);
+    `cbit_count`: classical bits of the circuit (no Measurement gate is added).  Both default to the historic behaviour."""
     from quri_parts.circuit import QuantumCircuit, gates
 
     from oracle import dense
 
-    c = QuantumCircuit(n)
+    c = QuantumCircuit(n, cbit_count) if cbit_count else QuantumCircuit(n)
     qs = list(range(n))
+
+    def ang():
+        x = nongrid_angle(rng)
+        if angle_forms:
+            r = rng.random()
+            if r < 0.08:
+                return rng.randint(-7, 7)  # a Python int is a perfectly good real angle
+            if r < 0.16:
+                import numpy as np
+
+                return np.float64(x)
+        return x
+
     for _ in range(length):
         k = rng.choice(kinds)
         if k in qp.ONE_Q:
             c.add_gate(getattr(gates, k)(rng.choice(qs)))
         elif k in ("RX", "RY", "RZ", "U1"):
-            c.add_gate(getattr(gates, k)(rng.choice(qs), nongrid_angle(rng)))
+            c.add_gate(getattr(gates, k)(rng.choice(qs), ang()))
         elif k == "U2":
-            c.add_gate(gates.U2(rng.choice(qs), nongrid_angle(rng), nongrid_angle(rng)))
+            c.add_gate(gates.U2(rng.choice(qs), ang(), ang()))
         elif k == "U3":
-            c.add_gate(gates.U3(rng.choice(qs), nongrid_angle(rng), nongrid_angle(rng), nongrid_angle(rng)))
+            c.add_gate(gates.U3(rng.choice(qs), ang(), ang(), ang()))
         elif k in ("CNOT", "CZ", "SWAP") and n >= 2:
             a, b = rng.sample(qs, 2)
             c.add_gate(getattr(gates, k)(a, b))
@@ -401,12 +421,15 @@ def random_real_circuit(rng, n, length, kinds, um=True):
             m = rng.randint(1, min(n, 4))
             ts = rng.sample(qs, m)
             ids = [rng.randint(1, 3) for _ in range(m)]
-            c.add_gate(gates.Pauli(ts, ids) if k == "Pauli" else gates.PauliRotation(ts, ids, nongrid_angle(rng)))
+            c.add_gate(gates.Pauli(ts, ids) if k == "Pauli" else gates.PauliRotation(ts, ids, ang()))
         elif k == "UM1" and um:
             c.add_gate(gates.UnitaryMatrix([rng.choice(qs)], dense.random_unitary(rng, 2).tolist()))
         elif k == "UM2" and um and n >= 2:
             a, b = rng.sample(qs, 2)
             c.add_gate(gates.UnitaryMatrix([a, b], structured_u4(rng).tolist()))
+        elif k == "UM3" and um and n >= 3:  # never decomposed by the library: passes through or is refused
+            ts = rng.sample(qs, 3)
+            c.add_gate(gates.UnitaryMatrix(ts, dense.random_unitary(rng, 8).tolist()))
     return c
 
 
@@ -474,6 +497,7 @@ def validate(ctx: Ctx, budget_s: float):
     from oracle import dense
 
     rng = ctx.rng
+    validate_extra(ctx)  # fixed-count checks first: their inputs are a function of the seed alone (the loop below is time-budgeted)
     t0 = time.time()
     full = qp.ONE_Q + ["RX", "RY", "RZ", "U1", "U2", "U3", "CNOT", "CZ", "SWAP", "TOFFOLI", "Pauli", "PauliRotation", "UM1", "UM2"]
     exact_tr = []
@@ -502,6 +526,7 @@ def validate(ctx: Ctx, budget_s: float):
     n_eval = 0
     worst = 0.0
     it = 0
+    pool: dict = {}
     while time.time() - t0 < budget_s:
         it += 1
         # a random configuration
@@ -511,17 +536,32 @@ def validate(ctx: Ctx, budget_s: float):
         elif r < 0.8:
             s = [k for k in c1 + ["T", "Tdag", "RX", "RY", "RZ", "CNOT", "CZ", "SWAP", "U3", "TOFFOLI"] if rng.random() < 0.35]
             name, make, tol = f"GateSetConversion({s})", (lambda s=s: T.GateSetConversionTranspiler(s)), 1e-6
-        elif r < 0.9:
+        elif r < 0.86:
             s = [k for k in c1 if rng.random() < 0.4]
             name, make, tol = f"CliffordConversion({s})", (lambda s=s: T.CliffordConversionTranspiler(s)), 1e-7
-        else:
+        elif r < 0.92:
             rs = [k for k in ("RX", "RY", "RZ") if rng.random() < 0.6]
             fv = [k for k in c1 if rng.random() < 0.3]
             name, make, tol = f"RotationConversion({rs},{fv})", (lambda a=rs, b=fv: T.RotationConversionTranspiler(a, b)), 1e-7
-        n = rng.randint(1, 4)
-        circ = random_real_circuit(rng, n, rng.randint(1, 7), full)
+        else:
+            name, make, tol = config_transpiler(rng, T)
+        n = rng.randint(1, 4) if rng.random() < 0.9 else 5
+        circ = random_real_circuit(rng, n, rng.randint(1, 7), full + (["UM3"] if rng.random() < 0.1 else []), angle_forms=True,
+                                   cbit_count=rng.choice([0, 0, 0, 2]))
+        u_in = dense.circuit_unitary(n, circ.gates)  # the action of the input, taken BEFORE the transpiler sees it
+        arg = circ.freeze() if rng.random() < 0.25 else circ
+        ctx.count("validate.input-form", type(arg).__name__)
         try:
-            out = make()(circ)
+            # a transpiler object is reusable: sometimes the instance that already served earlier circuits is used again
+            if name in pool and rng.random() < 0.35:
+                tr = pool[name]
+                ctx.count("validate.instance", "reused")
+            else:
+                tr = make()
+                if len(pool) < 400:
+                    pool[name] = tr
+                ctx.count("validate.instance", "fresh")
+            out = tr(arg)
         except Exception as e:  # raising is allowed by the property
             ctx.count("validate", "raised:" + type(e).__name__)
             n_eval += 1
@@ -531,15 +571,16 @@ def validate(ctx: Ctx, budget_s: float):
             ctx.witness("qubit-count", f"{name} changed qubit_count", describe_circ(circ))
             continue
         try:
-            d = dense.phase_dist(dense.circuit_unitary(n, out.gates), dense.circuit_unitary(n, circ.gates))
+            d = dense.phase_dist(dense.circuit_unitary(n, out.gates), u_in)
         except KeyError as e:
             ctx.count("validate", "oracle-unknown-gate")
             continue
-        worst = max(worst, d)
+        if d == d:
+            worst = max(worst, d)
         ctx.count("validate", "ok" if d <= tol else "MISMATCH")
-        if d > tol:
+        if not d <= tol:  # also catches NaN angles in the output
             small = shrink_circuit(circ, make, tol)
-            ctx.witness("transpile:" + name.split("(")[0], f"{name}: output differs from input by {d:.3g} (up to phase)",
+            ctx.witness("transpile:" + name.split("(")[0].split("[")[0], f"{name}: output differs from input by {d:.3g} (up to phase)",
                         describe_circ(small), {"dist": d})
     # quantinuum natives
     for _ in range(40 if ctx.quick() else 400):
@@ -554,7 +595,7 @@ def validate(ctx: Ctx, budget_s: float):
         out = TQN.U1qNormalizeWithRZTranspiler()(c)
         d = dense.phase_dist(dense.circuit_unitary(1, out.gates), dense.circuit_unitary(1, c.gates))
         n_eval += 1
-        if d > 1e-6:
+        if not d <= 1e-6:  # NaN counts as a mismatch
             names = [g.name for g in out.gates]
             key = "U1qNormalizeWithRZTranspiler.general-branch" if names == ["U1q", "RZ", "U1q"] else "U1qNormalize:other"
             ctx.witness(key, f"U1qNormalizeWithRZTranspiler differs by {d:.3g}", {"theta": th, "phi": ph, "out": names})
@@ -568,7 +609,7 @@ def validate(ctx: Ctx, budget_s: float):
                 continue
             d = dense.phase_dist(dense.circuit_unitary(3, out.gates), dense.circuit_unitary(3, circ.gates))
             n_eval += 1
-            if d > 1e-7:
+            if not d <= 1e-7:  # NaN counts as a mismatch
                 ctx.witness("transpile:" + cls.__name__, f"{cls.__name__} differs by {d:.3g}", describe_circ(circ))
     # the KAK decomposition on its own: structured two-qubit unitaries (degenerate spectra included) must be
     # decomposed faithfully or refused – never silently turned into another operator
@@ -588,7 +629,7 @@ def validate(ctx: Ctx, budget_s: float):
             continue
         d = dense.phase_dist(dense.circuit_unitary(2, out.gates), dense.circuit_unitary(2, c.gates))
         ctx.count("validate.kak", "ok" if d <= 1e-6 else "MISMATCH")
-        if d > 1e-6:
+        if not d <= 1e-6:  # NaN counts as a mismatch
             ctx.witness("transpile:TwoQubitUnitaryMatrixKAKTranspiler", f"KAK decomposition differs from the input matrix by {d:.3g} (up to phase), no error raised",
                         describe_circ(c), {"dist": d})
     # peephole / fusion passes on 3-gate windows and their near misses (all placements on 3 wires)
@@ -625,7 +666,7 @@ def validate(ctx: Ctx, budget_s: float):
             ctx.count("validate.window", "oracle-unknown-gate")
             continue
         ctx.count("validate.window", "ok" if d <= 1e-6 else "MISMATCH")
-        if d > 1e-6:
+        if not d <= 1e-6:  # NaN counts as a mismatch
             key = "transpile:" + name
             if name == "QuantinuumSetTranspiler" and any(g.name in ("RX", "RY") for g in c.gates):
                 # the preset normalises RX/RY(θ) through U1qNormalizeWithRZTranspiler's general branch (known finding)
@@ -639,6 +680,31 @@ def validate(ctx: Ctx, budget_s: float):
     ctx.search_budget_s = budget_s
 
 
+def ionq_unitary(n, gs):
+    """unitary of a circuit of IonQ native gates (GPi, GPi2, MS as documented in quri_parts.ionq.circuit.gates)"""
+    import numpy as np
+
+    from oracle import dense
+
+    u = np.eye(1 << n, dtype=complex)
+    for g in gs:
+        if g.name == "GPi":
+            p = 2 * math.pi * g.params[0]
+            m = np.array([[0, np.exp(-1j * p)], [np.exp(1j * p), 0]])
+        elif g.name == "GPi2":
+            p = 2 * math.pi * g.params[0]
+            m = np.array([[1, -1j * np.exp(-1j * p)], [-1j * np.exp(1j * p), 1]]) / math.sqrt(2)
+        elif g.name == "MS":
+            p0, p1 = (2 * math.pi * x for x in g.params)
+            m = np.array([[1, 0, 0, -1j * np.exp(-1j * (p0 + p1))], [0, 1, -1j * np.exp(-1j * (p0 - p1)), 0],
+                          [0, -1j * np.exp(1j * (p0 - p1)), 1, 0], [-1j * np.exp(1j * (p0 + p1)), 0, 0, 1]]) / math.sqrt(2)
+        else:
+            raise KeyError(g.name)
+        # the MS matrix of the docstring is IonQ's: first qubit = most significant bit
+        u = dense.embed(n, list(g.target_indices)[::-1], m) @ u
+    return u
+
+
 def ionq_validate(ctx, TI):
     """documented weaker relation: computational-basis measurement statistics are preserved,
     i.e. |<y|V|x>| = |<y|U|x>| for all x, y (per-qubit Z phases on the output side)."""
@@ -649,25 +715,6 @@ def ionq_validate(ctx, TI):
     from quri_parts.ionq.circuit import XX
 
     rng = ctx.rng
-
-    def ionq_unitary(n, gs):
-        u = np.eye(1 << n, dtype=complex)
-        for g in gs:
-            if g.name == "GPi":
-                p = 2 * math.pi * g.params[0]
-                m = np.array([[0, np.exp(-1j * p)], [np.exp(1j * p), 0]])
-            elif g.name == "GPi2":
-                p = 2 * math.pi * g.params[0]
-                m = np.array([[1, -1j * np.exp(-1j * p)], [-1j * np.exp(1j * p), 1]]) / math.sqrt(2)
-            elif g.name == "MS":
-                p0, p1 = (2 * math.pi * x for x in g.params)
-                m = np.array([[1, 0, 0, -1j * np.exp(-1j * (p0 + p1))], [0, 1, -1j * np.exp(-1j * (p0 - p1)), 0],
-                              [0, -1j * np.exp(1j * (p0 - p1)), 1, 0], [-1j * np.exp(1j * (p0 + p1)), 0, 0, 1]]) / math.sqrt(2)
-            else:
-                raise KeyError(g.name)
-            # the MS matrix of the docstring is IonQ's: first qubit = most significant bit
-            u = dense.embed(n, list(g.target_indices)[::-1], m) @ u
-        return u
 
     for _ in range(20 if ctx.quick() else 300):
         n = rng.randint(1, 3)
@@ -689,7 +736,7 @@ def ionq_validate(ctx, TI):
         dm = u @ v.conj().T  # must be diagonal: per-qubit Z phases only
         d = float(np.max(np.abs(dm - np.diag(np.diag(dm)))))
         ctx.evaluations += 1
-        if d > 1e-6:
+        if not d <= 1e-6:  # NaN counts as a mismatch
             ctx.witness("transpile:IonQNativeTranspiler", f"U·V† is not diagonal (off-diagonal {d:.3g}): outcome statistics differ", describe_circ(c))
 
 
@@ -729,8 +776,947 @@ def clifford_approx_validate(ctx, T):
             continue
         d = dense.phase_dist(dense.circuit_unitary(n, out.gates), dense.circuit_unitary(n, c.gates))
         ctx.evaluations += 1
-        if d > 1e-7:
+        if not d <= 1e-7:  # NaN counts as a mismatch
             ctx.witness("transpile:CliffordApproximationTranspiler", f"on Clifford angles the action changed by {d:.3g}", describe_circ(c))
+
+
+# ---------------------------------------------------------------------------
+# gap-closing validations (regions the random generators above never reach): configurations and argument forms,
+# parametric transpilers, 1-/2-qubit unitary matrices next to the decomposers' branch thresholds, IonQ/Quantinuum
+# presets on general circuits, documented rejections, deprecated factory aliases.
+# ---------------------------------------------------------------------------
+KNOWN_UM1 = "SingleQubitUnitaryMatrix2RYRZTranspiler.near-diagonal"
+KNOWN_KAK = "TwoQubitUnitaryMatrixKAKTranspiler.near-degenerate"
+KNOWN_IONQ_DROP = "IonQNativeTranspiler.drops-unsupported-gates"
+KNOWN_IONQ_XX = "IonQNativeTranspiler.XX-angle-ignored"
+C1Q = ["H", "X", "Y", "Z", "S", "Sdag", "SqrtX", "SqrtXdag", "SqrtY", "SqrtYdag", "Identity"]
+FULL = qp.ONE_Q + ["RX", "RY", "RZ", "U1", "U2", "U3", "CNOT", "CZ", "SWAP", "TOFFOLI", "Pauli", "PauliRotation", "UM1", "UM2"]
+
+
+def _container(rng, items):
+    """the same collection of gate names in a form the in-tree callers never use"""
+    form = rng.choice(["list", "tuple", "set", "frozenset", "generator", "dict-keys", "reversed-list"])
+    items = list(items)
+    if form == "list":
+        return form, (lambda: list(items))
+    if form == "tuple":
+        return form, (lambda: tuple(items))
+    if form == "set":
+        return form, (lambda: set(items))
+    if form == "frozenset":
+        return form, (lambda: frozenset(items))
+    if form == "generator":
+        return form, (lambda: (x for x in items))
+    if form == "dict-keys":
+        return form, (lambda: dict.fromkeys(items).keys())
+    return form, (lambda: list(reversed(items + items[:1])))  # repeated + reversed
+
+
+def config_transpiler(rng, T):
+    """(name, make, tol): constructor configurations beyond the defaults – explicit epsilon / validation / cycle range,
+    containers of every kind, nested and empty pipelines, ParallelDecomposer over decomposers that carry constructor
+    state, and the configurations the constructors document as rejected.  Whatever the constructor does with them, a
+    transpiler that comes out of it must preserve the action (or raise)."""
+    r = rng.random()
+    pi = math.pi
+    if r < 0.35:
+        s = [k for k in C1Q + ["T", "Tdag", "RX", "RY", "RZ", "CNOT", "CZ", "SWAP", "U1", "U3", "TOFFOLI", "Pauli"] if rng.random() < 0.35]
+        form, cont = _container(rng, s)
+        eps = rng.choice([None, 1e-9, 1e-6, 1e-4, 1e-12])
+        val = rng.choice([None, True, False, False])
+        kw = {}
+        if eps is not None:
+            kw["epsilon"] = eps
+        if val is not None:
+            kw["validation"] = val
+        positional = rng.random() < 0.3 and eps is not None and val is not None
+        mk = (lambda: T.GateSetConversionTranspiler(cont(), eps, val)) if positional else (lambda: T.GateSetConversionTranspiler(cont(), **kw))
+        return f"GateSetConversion[{form},eps={eps},validation={val}]({s})", mk, max(1e-6, 100 * (eps or 1e-9))
+    if r < 0.45:
+        s = [k for k in C1Q if rng.random() < 0.4]
+        form, cont = _container(rng, s)
+        return f"CliffordConversion[{form}]({s})", (lambda: T.CliffordConversionTranspiler(cont())), 1e-7
+    if r < 0.55:
+        rs = [k for k in ("RX", "RY", "RZ") if rng.random() < 0.6]
+        fv = [k for k in C1Q if rng.random() < 0.3]
+        f1, c1_ = _container(rng, rs)
+        f2, c2_ = _container(rng, fv)
+        if rng.random() < 0.5:
+            return f"RotationConversion[{f1},{f2}]({rs},{fv})", (lambda: T.RotationConversionTranspiler(target_rotation=c1_(), favorable_clifford=c2_())), 1e-7
+        return f"RotationConversion[{f1}]({rs})", (lambda: T.RotationConversionTranspiler(c1_())), 1e-7
+    if r < 0.67:
+        eps = rng.choice([1e-12, 1e-9, 1e-6, 1e-4])
+        which = rng.choice(["RX2Named", "RY2Named", "RZ2Named", "RZ2Named-noT", "Rotation2Named", "ZeroRotationElimination", "CliffordRZSet"])
+        mk = {
+            "RX2Named": lambda: T.RX2NamedTranspiler(eps), "RY2Named": lambda: T.RY2NamedTranspiler(epsilon=eps),
+            "RZ2Named": lambda: T.RZ2NamedTranspiler(eps, True), "RZ2Named-noT": lambda: T.RZ2NamedTranspiler(epsilon=eps, allow_t_tdag=False),
+            "Rotation2Named": lambda: T.Rotation2NamedTranspiler(epsilon=eps), "ZeroRotationElimination": lambda: T.ZeroRotationEliminationTranspiler(epsilon=eps),
+            "CliffordRZSet": lambda: T.CliffordRZSetTranspiler(epsilon=eps),
+        }[which]
+        return f"{which}(eps={eps})", mk, max(1e-6, 100 * eps)
+    if r < 0.77:
+        lo = rng.choice([0.0, -pi, -2 * pi, pi, 0.5, -7.25, 100.0, -3 * pi])
+        variants = [
+            (f"Normalize(({lo},+2pi))", lambda: T.NormalizeRotationTranspiler((lo, lo + 2 * pi))),
+            (f"Normalize(cycle_range=[{lo},+2pi],eps=1e-3)", lambda: T.NormalizeRotationTranspiler(cycle_range=[lo, lo + 2 * pi + 4e-4], epsilon=1e-3)),
+            ("Normalize(zero-width)", lambda: T.NormalizeRotationTranspiler((lo, lo))),
+            ("Normalize(descending)", lambda: T.NormalizeRotationTranspiler((lo + 2 * pi, lo))),
+            ("Normalize(width-3)", lambda: T.NormalizeRotationTranspiler((lo, lo + 3.0))),
+            ("Normalize(width-4pi)", lambda: T.NormalizeRotationTranspiler((lo, lo + 4 * pi))),
+        ]
+        nm, mk = rng.choice(variants)
+        return nm, mk, 1e-7
+    if r < 0.87:
+        variants = [
+            ("Parallel(duplicate-kind)", lambda: T.ParallelDecomposer([T.X2RXTranspiler(), T.H2RZSqrtXTranspiler(), T.X2HZTranspiler()])),
+            ("Parallel(duplicate-multi-kind)", lambda: T.ParallelDecomposer((T.RY2RZSqrtXTranspiler(), T.NormalizeRotationTranspiler()))),
+            ("Parallel(stateful-members)", lambda: T.ParallelDecomposer((
+                T.RX2NamedTranspiler(1e-7), T.RY2RZSqrtXTranspiler(), T.RZ2NamedTranspiler(1e-7, False), T.T2RZTranspiler(), T.PauliDecomposeTranspiler(),
+                T.PauliRotationDecomposeTranspiler(), T.TOFFOLI2HTTdagCNOTTranspiler(), T.CZ2CNOTHTranspiler(), T.U3ToRZSqrtXTranspiler()))),
+            ("Parallel(normalize+named)", lambda: T.ParallelDecomposer([T.NormalizeRotationTranspiler((-pi, pi)), T.H2RXRYTranspiler(), T.SWAP2CNOTTranspiler(), T.U2ToRXRZTranspiler()])),
+            ("Parallel(empty)", lambda: T.ParallelDecomposer([])),
+            ("Parallel(zero-elim)", lambda: T.ParallelDecomposer([T.ZeroRotationEliminationTranspiler(1e-7), T.Identity2RZTranspiler(), T.Y2RZXTranspiler()])),
+        ]
+        nm, mk = rng.choice(variants)
+        return nm, mk, 1e-5
+    if r < 0.95:
+        variants = [
+            ("Sequential(empty-tuple)", lambda: T.SequentialTranspiler(())),
+            ("Sequential(nested)", lambda: T.SequentialTranspiler((T.SequentialTranspiler([T.PauliRotationDecomposeTranspiler(), T.SequentialTranspiler([])]),
+                                                                      T.RZSetTranspiler(), T.SequentialTranspiler((T.CNOTHCNOTFusingTranspiler(), T.FuseRotationTranspiler()))))),
+            ("Sequential(function-members)", lambda: T.SequentialTranspiler([lambda c: T.TOFFOLI2HTTdagCNOTTranspiler()(c), T.CZ2CNOTHTranspiler().__call__, T.CNOTHCNOTFusingTranspiler()])),
+            ("Sequential(presets-twice)", lambda: T.SequentialTranspiler([T.RotationSetTranspiler(), T.RZSetTranspiler(), T.RotationSetTranspiler()])),
+            ("Sequential(STAR,CliffordRZ)", lambda: T.SequentialTranspiler([T.STARSetTranspiler(), T.CliffordRZSetTranspiler()])),
+        ]
+        nm, mk = rng.choice(variants)
+        return nm, mk, 1e-5
+    variants = [  # documented rejections: if the constructor lets them through, the object must still be harmless
+        ("CliffordConversion(rejected:T)", lambda: T.CliffordConversionTranspiler(["H", "T", "S"])),
+        ("CliffordConversion(rejected:CNOT)", lambda: T.CliffordConversionTranspiler(("CNOT", "X"))),
+        ("RotationConversion(rejected:U1)", lambda: T.RotationConversionTranspiler(["RZ", "U1"])),
+        ("RotationConversion(rejected:favorable-CNOT)", lambda: T.RotationConversionTranspiler(["RZ"], ["CNOT", "SqrtX"])),
+        ("RotationConversion(rejected:favorable-T)", lambda: T.RotationConversionTranspiler(["RX", "RZ"], ["T"])),
+    ]
+    nm, mk = rng.choice(variants)
+    return nm, mk, 1e-7
+
+
+def _judge(ctx, key, what, n, circ, u_in, out, tol, stat):
+    """same action up to phase (NaN-safe); returns True when judged ok"""
+    from oracle import dense
+
+    if out.qubit_count != n:
+        ctx.witness("qubit-count", f"{what} changed qubit_count", describe_circ(circ))
+        return False
+    try:
+        d = dense.phase_dist(dense.circuit_unitary(n, out.gates), u_in)
+    except KeyError:
+        ctx.count(stat, "oracle-unknown-gate")
+        return True
+    ctx.count(stat, "ok" if d <= tol else "MISMATCH")
+    if not d <= tol:
+        ctx.witness(key, f"{what}: output differs from input by {d:.3g} (up to phase), no error raised", describe_circ(circ), {"dist": d})
+        return False
+    return True
+
+
+def config_validate(ctx, T):
+    """every configuration family of `config_transpiler`, deterministically many times, one instance serving several circuits"""
+    from oracle import dense
+
+    rng = ctx.rng
+    for _ in range(ctx.n(250, 4000)):
+        name, make, tol = config_transpiler(rng, T)
+        try:
+            tr = make()
+        except Exception as e:  # noqa: BLE001 – refusing a configuration is allowed
+            ctx.count("validate.config", "ctor-raised:" + type(e).__name__)
+            ctx.evaluations += 1
+            continue
+        for _ in range(rng.randint(1, 3)):  # the same object, several circuits
+            n = rng.randint(1, 4)
+            circ = random_real_circuit(rng, n, rng.randint(1, 6), FULL, angle_forms=True)
+            u_in = dense.circuit_unitary(n, circ.gates)
+            ctx.evaluations += 1
+            try:
+                out = tr(circ.freeze() if rng.random() < 0.3 else circ)
+            except Exception as e:  # noqa: BLE001
+                ctx.count("validate.config", "raised:" + type(e).__name__)
+                continue
+            _judge(ctx, "transpile:" + name.split("(")[0].split("[")[0], name, n, circ, u_in, out, tol, "validate.config")
+
+
+# ---- 1-qubit unitary matrices ------------------------------------------------------------------------------------------
+def structured_u2(rng):
+    """(matrix as numpy array, family): diagonal / anti-diagonal (the two special branches of su2_decompose), named gates,
+    matrices next to those branches (tiny off-diagonal or tiny diagonal entries), real-valued and Haar matrices, each
+    with an arbitrary global phase"""
+    import cmath
+
+    import numpy as np
+
+    from oracle import dense
+
+    u = lambda: rng.uniform(-math.pi, math.pi)
+    r = rng.random()
+    if r < 0.15:
+        m, fam = np.diag([cmath.exp(1j * u()), cmath.exp(1j * u())]), "diagonal"
+    elif r < 0.3:
+        m, fam = np.array([[0, cmath.exp(1j * u())], [cmath.exp(1j * u()), 0]]), "anti-diagonal"
+    elif r < 0.45:
+        k = rng.choice(sorted(dense.ONE))
+        m, fam = np.array(dense.ONE[k], dtype=complex), "named"
+    elif r < 0.6:
+        t = rng.choice([1e-16, 5e-16, 1e-3, 1e-2, math.pi / 2, math.pi - 1e-3, math.pi - 1e-6, math.pi - 1e-9, math.pi - 1e-12, math.pi - 1e-15])
+        m, fam = dense.u3(t, u(), u()), "near-branch"
+    elif r < 0.75:
+        t = 10 ** rng.uniform(-14.5, -3.7)  # the region of the known finding (off-diagonal entries in [1e-15, 2e-4])
+        m, fam = dense.u3(t, u(), u()), "near-diagonal"
+    elif r < 0.85:
+        t = u()
+        m, fam = np.array([[math.cos(t), -math.sin(t)], [math.sin(t), math.cos(t)]]) @ np.diag([1, rng.choice([1, -1])]), "real"
+    else:
+        m, fam = dense.random_unitary(rng, 2), "haar"
+    if fam != "real" and rng.random() < 0.6:
+        m = cmath.exp(1j * u()) * np.asarray(m, dtype=complex)
+    return np.asarray(m), fam
+
+
+def um1_validate(ctx, T):
+    """SingleQubitUnitaryMatrix2RYRZTranspiler on its own and inside the presets, matrices given as lists / tuples /
+    numpy arrays / real numbers, through UnitaryMatrix and SingleQubitUnitaryMatrix"""
+    import numpy as np
+
+    from oracle import dense
+    from quri_parts.circuit import QuantumCircuit, gates
+
+    rng = ctx.rng
+
+    def known_region(m):
+        lo = min(abs(m[0][1]), abs(m[1][0]))
+        return 1e-15 <= lo < 2e-4
+
+    def one(m, fam, make, name, tol=1e-6, form="list"):
+        m = np.asarray(m)
+        n = rng.randint(1, 2)
+        q = rng.randrange(n)
+        arg = m.tolist() if form == "list" else tuple(map(tuple, m.tolist())) if form == "tuple" else m
+        if form == "real-list":
+            arg = [[float(x.real) for x in row] for row in m]
+        c = QuantumCircuit(n)
+        c.add_gate(gates.SingleQubitUnitaryMatrix(q, arg) if rng.random() < 0.3 else gates.UnitaryMatrix([q], arg))
+        u_in = dense.embed(n, [q], np.asarray(m, dtype=complex))
+        ctx.evaluations += 1
+        try:
+            out = make()(c)
+        except Exception as e:  # noqa: BLE001 – refusing is allowed
+            ctx.count("validate.um1", f"{fam}:raised:" + type(e).__name__)
+            return None
+        d = dense.phase_dist(dense.circuit_unitary(n, out.gates), u_in)
+        ctx.count("validate.um1", f"{fam}:" + ("ok" if d <= tol else "MISMATCH"))
+        if not d <= tol:
+            key = KNOWN_UM1 if known_region(m) else "transpile:" + name
+            ctx.witness(key, f"{name}: 1-qubit UnitaryMatrix ({fam}, |u01|={abs(m[0][1]):.3g}) decomposed into an operator {d:.3g} away (up to phase), no error raised",
+                        describe_circ(c), {"dist": d})
+        return d
+
+    makes = [("SingleQubitUnitaryMatrix2RYRZTranspiler", T.SingleQubitUnitaryMatrix2RYRZTranspiler)] * 3 + [
+        ("RZSetTranspiler", T.RZSetTranspiler), ("RotationSetTranspiler", T.RotationSetTranspiler),
+        ("GateSetConversionTranspiler", lambda: T.GateSetConversionTranspiler(["H", "RZ", "CNOT"])), ("CliffordRZSetTranspiler", T.CliffordRZSetTranspiler)]
+    for _ in range(ctx.n(300, 6000)):
+        m, fam = structured_u2(rng)
+        name, make = rng.choice(makes)
+        form = "real-list" if fam == "real" and rng.random() < 0.7 else rng.choice(["list", "list", "tuple", "numpy"])
+        one(m, fam, make, name, form=form)
+    # pinned witness of the known finding, replayed on the real code every run
+    pinned = dense.u3(1e-9, 0.3, 0.9)
+    for name, make in makes[2:5]:
+        one(pinned, "near-diagonal", make, name)
+
+
+# ---- 2-qubit unitary matrices next to a degenerate KAK spectrum ------------------------------------------------------------
+def _expi(h):
+    import numpy as np
+
+    w, v = np.linalg.eigh(h)
+    return (v * np.exp(1j * w)) @ v.conj().T
+
+
+def _rand_herm(rng, dim):
+    import numpy as np
+
+    a = np.array([[complex(rng.gauss(0, 1), rng.gauss(0, 1)) for _ in range(dim)] for _ in range(dim)])
+    return (a + a.conj().T) / 2
+
+
+def kak_gap(m):
+    """smallest distance between two eigenvalues of (M†UM)ᵀ(M†UM), M the magic basis: the conditioning of the
+    eigenvector problem the KAK decomposition rests on (0 for controlled rotations, SWAP, tensor products, …)"""
+    import numpy as np
+
+    mag = np.array([[1, -1j, 0, 0], [0, 0, -1, -1j], [0, 0, 1, -1j], [1, 1j, 0, 0]]) / math.sqrt(2)
+    up = mag.conj().T @ np.asarray(m, dtype=complex) @ mag
+    ev = np.linalg.eigvals(up.T @ up)
+    return float(min(abs(ev[i] - ev[j]) for i in range(4) for j in range(i)))
+
+
+def kak_near_validate(ctx, T):
+    """structured two-qubit unitaries perturbed by exp(iδH), δ ∈ [1e-10, 1e-3]: what numerically obtained
+    CNOT-/SWAP-/tensor-product-like matrices look like.  Faithful, or refused."""
+    import numpy as np
+
+    from oracle import dense
+    from quri_parts.circuit import QuantumCircuit, gates
+
+    rng = ctx.rng
+    X, Y, Z = dense.PX, dense.PY, dense.PZ
+    kr = np.kron
+
+    def one(m, fam, make, name):
+        tg = rng.choice([[0, 1], [1, 0]])
+        c = QuantumCircuit(2)
+        arg = rng.choice([m.tolist(), m.tolist(), np.asarray(m), tuple(map(tuple, m.tolist()))])
+        c.add_gate(gates.TwoQubitUnitaryMatrix(tg[0], tg[1], arg) if rng.random() < 0.3 else gates.UnitaryMatrix(tuple(tg) if rng.random() < 0.3 else tg, arg))
+        u_in = dense.embed(2, tg, np.asarray(m, dtype=complex))
+        ctx.evaluations += 1
+        try:
+            out = make()(c)
+        except Exception as e:  # noqa: BLE001 – refusing is allowed
+            ctx.count("validate.kak-near", f"{fam}:raised:" + type(e).__name__)
+            return
+        try:
+            d = dense.phase_dist(dense.circuit_unitary(2, out.gates), u_in)
+        except KeyError:
+            ctx.count("validate.kak-near", "oracle-unknown-gate")
+            return
+        gap = kak_gap(m)
+        # tolerance 1e-5: QuantumGate.unitary_matrix hands the decomposer the matrix with imaginary parts below 1e-7 dropped,
+        # an input perturbation the documented behaviour includes.  Known class: eigenvalue gap < 1e-3 (measured: errors up
+        # to 2.0 / NaN for gaps < 1e-5, up to 0.6 for [1e-5,1e-4), up to 0.03 for [1e-4,1e-3), below 1e-7 above 1e-3).
+        ctx.count("validate.kak-near", f"{fam}:" + ("ok" if d <= 1e-5 else "MISMATCH"))
+        if not d <= 1e-5:
+            key = KNOWN_KAK if gap < 1e-3 else "transpile:" + name
+            ctx.witness(key, f"{name}: 2-qubit UnitaryMatrix ({fam}, KAK eigenvalue gap {gap:.3g}) decomposed into an operator {d:.3g} away (up to phase), no error raised",
+                        describe_circ(c), {"dist": d, "gap": gap})
+
+    makes = [("TwoQubitUnitaryMatrixKAKTranspiler", T.TwoQubitUnitaryMatrixKAKTranspiler)] * 3 + [
+        ("RZSetTranspiler", T.RZSetTranspiler), ("RotationSetTranspiler", T.RotationSetTranspiler)]
+    for _ in range(ctx.n(150, 4000)):
+        base = structured_u4(rng) if rng.random() < 0.8 else dense.random_unitary(rng, 4)
+        delta = 10 ** rng.uniform(-10, -3)
+        name, make = rng.choice(makes)
+        one(np.asarray(base, dtype=complex) @ _expi(delta * _rand_herm(rng, 4)), f"perturbed(1e{int(math.floor(math.log10(delta)))})", make, name)
+    # pinned witnesses of the known finding
+    one(_expi(0.3 * kr(X, X) + (0.3 + 1e-7) * kr(Y, Y) + 0.1 * kr(Z, Z)), "pinned:exp(i(.3XX+(.3+1e-7)YY+.1ZZ))", makes[0][1], makes[0][0])
+    one(dense.local_matrix("CNOT") @ _expi(1e-7 * (kr(X, X) + 0.5 * kr(Y, Z))), "pinned:CNOT·exp(1e-7i(XX+.5YZ))", makes[0][1], makes[0][0])
+
+
+# ---- parametric transpilers ----------------------------------------------------------------------------------------------------
+NONPARAM = qp.ONE_Q + ["RX", "RY", "RZ", "U1", "U2", "U3", "CNOT", "CZ", "SWAP", "TOFFOLI", "Pauli", "PauliRotation"]
+
+
+def random_parametric_circuit(rng, n, length, linear):
+    """ParametricQuantumCircuit (every parametric gate its own parameter) or LinearMappedParametricQuantumCircuit
+    (shared parameters, linear functions with constant terms, possibly unused parameters)"""
+    import quri_parts.circuit as qc
+
+    if linear:
+        c = qc.LinearMappedParametricQuantumCircuit(n, rng.choice([0, 0, 1]))
+        ps = list(c.add_parameters(*[f"p{i}" for i in range(rng.randint(1, 3))]))
+    else:
+        c = qc.ParametricQuantumCircuit(n, rng.choice([0, 0, 1]))
+        ps = []
+    for _ in range(length):
+        if rng.random() < 0.45:
+            kind = rng.choice(["RX", "RY", "RZ", "PauliRotation"])
+            args = ()
+            if linear:
+                if rng.random() < 0.4:
+                    args = (rng.choice(ps),)
+                else:
+                    f = {p: rng.choice([1.0, -1.0, 0.5, 2.0, rng.uniform(-2, 2)]) for p in rng.sample(ps, rng.randint(1, len(ps)))}
+                    if rng.random() < 0.5:
+                        f[qc.CONST] = nongrid_angle(rng)
+                    args = (f,)
+            if kind == "PauliRotation":
+                ts = rng.sample(range(n), rng.randint(1, min(n, 3)))
+                c.add_ParametricPauliRotation_gate(ts, [rng.randint(1, 3) for _ in ts], *args)
+            else:
+                getattr(c, f"add_Parametric{kind}_gate")(rng.randrange(n), *args)
+        else:
+            for g in random_real_circuit(rng, n, 1, NONPARAM, um=False).gates:
+                c.add_gate(g)
+    return c
+
+
+def parametric_validate(ctx, T):
+    """ParametricTranspiler(<any circuit transpiler>), ParametricRX2RZH / ParametricRY2RZH /
+    ParametricPauliRotationDecompose and ParametricSequentialTranspiler: the parameter list is kept and, for every
+    parameter value, the bound output has the action of the bound input"""
+    from oracle import dense
+
+    rng = ctx.rng
+    inner = [("RZSet", T.RZSetTranspiler), ("RotationSet", T.RotationSetTranspiler), ("CliffordRZSet", T.CliffordRZSetTranspiler),
+             ("STARSet", T.STARSetTranspiler), ("FuseRotation", T.FuseRotationTranspiler), ("CNOTHCNOTFusing", T.CNOTHCNOTFusingTranspiler),
+             ("H2RZSqrtX", T.H2RZSqrtXTranspiler), ("PauliRotationDecompose", T.PauliRotationDecomposeTranspiler),
+             ("IdentityInsertion", T.IdentityInsertionTranspiler), ("GateSet(H,S,T,RZ,CZ)", lambda: T.GateSetConversionTranspiler(["H", "S", "T", "RZ", "CZ"])),
+             ("Normalize(-pi,pi)", lambda: T.NormalizeRotationTranspiler((-math.pi, math.pi))), ("function", lambda: (lambda c: T.SWAP2CNOTTranspiler()(c)))]
+
+    def atom():
+        r = rng.random()
+        if r < 0.4:
+            nm, mk = rng.choice(inner)
+            return f"ParametricTranspiler({nm})", (lambda: T.ParametricTranspiler(mk()))
+        if r < 0.6:
+            return "ParametricRX2RZHTranspiler", T.ParametricRX2RZHTranspiler
+        if r < 0.8:
+            return "ParametricRY2RZHTranspiler", T.ParametricRY2RZHTranspiler
+        return "ParametricPauliRotationDecomposeTranspiler", T.ParametricPauliRotationDecomposeTranspiler
+
+    for _ in range(ctx.n(250, 5000)):
+        if rng.random() < 0.6:
+            name, make = atom()
+        else:
+            parts = [atom() for _ in range(rng.randint(0, 3))]
+            name = "ParametricSequentialTranspiler[" + ",".join(p[0] for p in parts) + "]"
+            cont = rng.choice([list, tuple])
+            make = (lambda parts=parts, cont=cont: T.ParametricSequentialTranspiler(cont(p[1]() for p in parts)))
+        n = rng.randint(1, 3)
+        linear = rng.random() < 0.5
+        circ = random_parametric_circuit(rng, n, rng.randint(1, 7), linear)
+        pc = circ.parameter_count
+        vals = [[nongrid_angle(rng) for _ in range(pc)] for _ in range(2)] + [[0.0] * pc]
+        u_in = [dense.circuit_unitary(n, circ.bind_parameters(v).gates) for v in vals]  # before the transpiler sees the circuit
+        desc = {"kind": type(circ).__name__, "qubit_count": n, "parameter_count": pc,
+                "gates": [(g.name, list(g.control_indices), list(g.target_indices), [repr(float(x)) for x in getattr(g, "params", ())], list(g.pauli_ids))
+                          for g in circ.gates],
+                "param_mapping": repr(getattr(circ.param_mapping, "mapping", None))[:600]}
+        ctx.evaluations += 1
+        try:
+            out = make()(circ.freeze() if rng.random() < 0.25 else circ)
+        except Exception as e:  # noqa: BLE001 – refusing is allowed
+            ctx.count("validate.parametric", "raised:" + type(e).__name__)
+            continue
+        key = "transpile:" + name.split("(")[0].split("[")[0]
+        try:
+            if out.qubit_count != n or out.parameter_count != pc:
+                ctx.witness(key, f"{name}: qubit_count/parameter_count {n}/{pc} became {out.qubit_count}/{out.parameter_count}", desc)
+                continue
+            worst = 0.0
+            for v, u in zip(vals, u_in):
+                d = dense.phase_dist(dense.circuit_unitary(n, out.bind_parameters(v).gates), u)
+                worst = d if not d <= worst else worst
+                if not d <= 1e-6:
+                    break
+        except KeyError:
+            ctx.count("validate.parametric", "oracle-unknown-gate")
+            continue
+        ctx.count("validate.parametric", ("linear:" if linear else "unbound:") + ("ok" if worst <= 1e-6 else "MISMATCH"))
+        if not worst <= 1e-6:
+            desc["values"] = [repr(x) for x in v]
+            ctx.witness(key, f"{name}: bound output differs from bound input by {worst:.3g} (up to phase)", desc, {"dist": worst})
+
+
+def parametric_reject_validate(ctx, T):
+    """documented rejections of the parametric transpilers (`Unsupported parametric gate`, `Parametric gate with no
+    Parameter`): a circuit object (any ParametricQuantumCircuitProtocol implementation) whose primitive circuit holds a
+    parametric gate of an unknown kind, or a parametric gate without its parameter, is refused – not transpiled with
+    that gate silently dropped or mis-bound"""
+    import types
+
+    rng = ctx.rng
+
+    class Wrapped:  # the minimal protocol the transpilers read
+        def __init__(self, real, gp):
+            self.qubit_count, self.cbit_count, self.param_mapping, self._gp = real.qubit_count, real.cbit_count, real.param_mapping, gp
+
+        def primitive_circuit(self):
+            return self
+
+        @property
+        def gates_and_params(self):
+            return self._gp
+
+    trs = [("ParametricTranspiler", lambda: T.ParametricTranspiler(T.RZSetTranspiler())), ("ParametricRX2RZHTranspiler", T.ParametricRX2RZHTranspiler),
+           ("ParametricRY2RZHTranspiler", T.ParametricRY2RZHTranspiler), ("ParametricPauliRotationDecomposeTranspiler", T.ParametricPauliRotationDecomposeTranspiler)]
+    for _ in range(ctx.n(40, 400)):
+        n = rng.randint(1, 3)
+        real = random_parametric_circuit(rng, n, rng.randint(2, 6), linear=rng.random() < 0.5)
+        gp = list(real.primitive_circuit().gates_and_params)
+        idx = [i for i, (g, p) in enumerate(gp) if p is not None]
+        if not idx:
+            continue
+        i = rng.choice(idx)
+        g, p = gp[i]
+        mode = rng.choice(["unknown-kind", "no-parameter"])
+        if mode == "unknown-kind":
+            fake = types.SimpleNamespace(name=rng.choice(["ParametricU1", "ParametricRXX", "ParametricFoo"]), target_indices=tuple(g.target_indices),
+                                         control_indices=(), pauli_ids=tuple(g.pauli_ids))
+            gp[i] = (fake, p)
+        else:
+            gp[i] = (g, None)
+        name, make = rng.choice(trs)
+        ctx.evaluations += 1
+        try:
+            out = make()(Wrapped(real, gp))
+        except Exception as e:  # noqa: BLE001 – the documented outcome
+            ctx.count("validate.parametric-reject", f"{mode}:raised:" + type(e).__name__)
+            continue
+        ctx.count("validate.parametric-reject", f"{mode}:ACCEPTED")
+        ctx.witness("transpile:" + name, f"{name}: a primitive circuit with {'a parametric gate of unknown kind ' + fake.name if mode == 'unknown-kind' else 'a parametric gate without parameter'} "
+                    f"at position {i} was transpiled to {len(out.gates)} gates instead of being rejected",
+                    {"qubit_count": n, "gates": [(g.name, list(g.target_indices), list(g.pauli_ids)) for g, _ in gp], "position": i, "mode": mode})
+
+
+# ---- IonQ ------------------------------------------------------------------------------------------------------------------------
+def ionq_extra_validate(ctx, TI):
+    """IonQNativeTranspiler with explicit epsilon and angles next to its ±π/2, ±π thresholds, on circuits that also
+    contain gates it does not convert and XX gates with arbitrary angles; the IonQSetTranspiler preset on the full
+    vocabulary.  Relation: the documented one (outcome statistics in the computational basis)."""
+    import numpy as np
+
+    import quri_parts.circuit.transpile as T
+    from oracle import dense
+    from quri_parts.circuit import QuantumCircuit, gates
+    from quri_parts.ionq.circuit import XX
+
+    rng = ctx.rng
+
+    def offdiag(u, v):
+        dm = u @ v.conj().T
+        return float(np.max(np.abs(dm - np.diag(np.diag(dm)))))
+
+    def run(name, make, c, tol, key_of):
+        n = c.qubit_count
+        u = dense.circuit_unitary(n, c.gates)
+        ctx.evaluations += 1
+        try:
+            out = make()(c)
+        except Exception as e:  # noqa: BLE001
+            ctx.count("validate.ionq", "raised:" + type(e).__name__)
+            return
+        try:
+            v = ionq_unitary(n, out.gates)
+        except KeyError:
+            ctx.count("validate.ionq", "non-native-gate-in-output")
+            return
+        d = offdiag(u, v)
+        ctx.count("validate.ionq", "ok" if d <= tol else "MISMATCH")
+        if not d <= tol:
+            ctx.witness(key_of(c, v, tol), f"{name}: U·V† is not diagonal (off-diagonal {d:.3g}): outcome statistics differ, no error raised", describe_circ(c), {"dist": d})
+
+    def native_key(c, v=None, tol=1e-6):
+        """known key only if the input is in the key's trigger class AND the output is exactly what the recorded defect
+        produces (unsupported gates deleted, XX(φ) read as XX(±π/4) by the sign of φ); any other deviation gets a fresh key"""
+        unsupported = any(g.name not in ("RX", "RY", "RZ", "XX") for g in c.gates)
+        odd_xx = any(g.name == "XX" and min(abs(g.params[0] - math.pi / 4), abs(g.params[0] + math.pi / 4)) > 1e-9 for g in c.gates)
+        if not (unsupported or odd_xx):
+            return "transpile:IonQNativeTranspiler"
+        if v is not None:
+            as_code = [XX(g.target_indices[0], g.target_indices[1], math.pi / 4 if g.params[0] > 0.0 else -math.pi / 4) if g.name == "XX" else g
+                       for g in c.gates if g.name in ("RX", "RY", "RZ", "XX")]
+            if not offdiag(dense.circuit_unitary(c.qubit_count, as_code), v) <= tol:
+                return "transpile:IonQNativeTranspiler"
+        return KNOWN_IONQ_DROP if unsupported else KNOWN_IONQ_XX
+
+    shared: dict = {}
+    for _ in range(ctx.n(200, 3000)):
+        eps = rng.choice([None, 1e-6, 1e-9, 1e-3])
+        e = eps or 1e-6
+        n = rng.randint(1, 3)
+        c = QuantumCircuit(n)
+        mode = rng.choice(["supported", "supported", "supported", "unsupported", "xx-angle"])
+        for _ in range(rng.randint(1, 6)):
+            k = rng.choice(["RX", "RY", "RZ", "XX"] + (["H", "CNOT", "S", "X"] if mode == "unsupported" else []))
+            if k == "XX":
+                if n >= 2:
+                    a, b = rng.sample(range(n), 2)
+                    phi = rng.choice([math.pi / 4, -math.pi / 4]) if mode != "xx-angle" else rng.choice([0.1, -0.3, math.pi / 8, math.pi / 2, 0.0, rng.uniform(-3, 3)])
+                    c.add_gate(XX(a, b, phi))
+            elif k in ("RX", "RY", "RZ"):
+                if rng.random() < 0.5:
+                    ang = rng.choice([0.5, -0.5, 1.0, -1.0, 2.5, -1.5]) * math.pi + rng.choice([0.0, e / 2, -e / 2, 2 * e, -2 * e, 1e-12])
+                else:
+                    ang = nongrid_angle(rng)
+                c.add_gate(getattr(gates, k)(rng.randrange(n), ang))
+            elif k == "CNOT":
+                if n >= 2:
+                    a, b = rng.sample(range(n), 2)
+                    c.add_gate(gates.CNOT(a, b))
+            else:
+                c.add_gate(getattr(gates, k)(rng.randrange(n)))
+        mk = (lambda: TI.IonQNativeTranspiler()) if eps is None else rng.choice([lambda: TI.IonQNativeTranspiler(eps), lambda: TI.IonQNativeTranspiler(epsilon=eps)])
+        if rng.random() < 0.4:  # one object serving many circuits: the phase bookkeeping is per call, not per object
+            if eps not in shared:
+                try:
+                    shared[eps] = mk()
+                except Exception:  # noqa: BLE001
+                    pass
+            if eps in shared:
+                mk = (lambda o=shared[eps]: o)
+        run(f"IonQNativeTranspiler(eps={eps})", mk, c, max(1e-6, 8 * e), native_key)
+    # pinned witnesses of the two known findings
+    c = QuantumCircuit(1)
+    c.add_gate(gates.H(0))
+    run("IonQNativeTranspiler", TI.IonQNativeTranspiler, c, 1e-6, native_key)
+    c = QuantumCircuit(2)
+    c.add_gate(XX(0, 1, 0.1))
+    run("IonQNativeTranspiler", TI.IonQNativeTranspiler, c, 1e-6, native_key)
+    # the preset: everything is first rewritten to RX/RY/RZ/CNOT, so the whole vocabulary is in its domain
+    kinds = qp.ONE_Q + ["RX", "RY", "RZ", "U1", "U2", "U3", "CNOT", "CZ", "SWAP", "TOFFOLI", "Pauli", "PauliRotation", "UM1", "UM2"]
+    for _ in range(ctx.n(80, 1500)):
+        n = rng.randint(1, 3)
+        c = random_real_circuit(rng, n, rng.randint(1, 5), kinds, angle_forms=True)
+        run("IonQSetTranspiler", TI.IonQSetTranspiler, c, 1e-5, lambda c, v=None, tol=None: "transpile:IonQSetTranspiler")
+
+
+# ---- Quantinuum preset on general circuits -------------------------------------------------------------------------------------
+def quantinuum_general_validate(ctx, TQ):
+    import quri_parts.circuit.transpile as T
+    from oracle import dense
+
+    rng = ctx.rng
+    kinds = ["H", "X", "Y", "Z", "S", "Sdag", "T", "Tdag", "SqrtX", "SqrtY", "RZ", "RZ", "U1", "CNOT", "CNOT", "CZ", "SWAP", "TOFFOLI", "Pauli", "RX", "PauliRotation"]
+
+    def generic_rotation(c):
+        """does the preset's own front end hand an RX/RY with a generic angle to U1qNormalizeWithRZTranspiler?"""
+        try:
+            c = TQ.CZ2RZZZTranspiler()(c)
+            c = T.GateSetConversionTranspiler(["RX", "RY", "RZ", "CNOT"], validation=False)(c)
+            c = TQ.CNOTRZ2RZZTranspiler()(c)
+        except Exception:  # noqa: BLE001
+            return False
+        near = lambda x, y: abs(x - y) < 0.5e-9  # U1qNormalizeWithRZTranspiler's epsilon is 1e-9: inside half of it the special branches apply for sure
+        return any(g.name in ("RX", "RY") and not any(near(g.params[0], t) for t in (0.0, math.pi, math.pi / 2, -math.pi / 2)) for g in c.gates)
+
+    for _ in range(ctx.n(120, 2500)):
+        n = rng.randint(1, 3)
+        c = random_real_circuit(rng, n, rng.randint(1, 5), kinds, um=False)
+        u_in = dense.circuit_unitary(n, c.gates)
+        ctx.evaluations += 1
+        try:
+            out = TQ.QuantinuumSetTranspiler()(c)
+        except Exception as e:  # noqa: BLE001
+            ctx.count("validate.quantinuum", "raised:" + type(e).__name__)
+            continue
+        try:
+            d = dense.phase_dist(dense.circuit_unitary(n, out.gates), u_in)
+        except KeyError:
+            ctx.count("validate.quantinuum", "oracle-unknown-gate")
+            continue
+        if d <= 1e-6:
+            ctx.count("validate.quantinuum", "ok")
+            continue
+        gen = generic_rotation(c)
+        ctx.count("validate.quantinuum", "MISMATCH:known-general-branch" if gen else "MISMATCH")
+        key = "QuantinuumSetTranspiler.via-U1qNormalize-general-branch" if gen else "transpile:QuantinuumSetTranspiler"
+        ctx.witness(key, f"QuantinuumSetTranspiler: output differs from input by {d:.3g} (up to phase)", describe_circ(c), {"dist": d})
+
+
+# ---- sizes the random circuits never pick: Pauli strings on 5 and 6 qubits ---------------------------------------------------------
+def large_pauli_validate(ctx, T):
+    from oracle import dense
+    from quri_parts.circuit import QuantumCircuit, gates
+
+    rng = ctx.rng
+    trs = [("PauliRotationDecomposeTranspiler", T.PauliRotationDecomposeTranspiler, 1e-7), ("PauliDecomposeTranspiler", T.PauliDecomposeTranspiler, 1e-7),
+           ("RZSetTranspiler", T.RZSetTranspiler, 1e-6), ("RotationSetTranspiler", T.RotationSetTranspiler, 1e-6),
+           ("CliffordApproximationTranspiler", T.CliffordApproximationTranspiler, 1e-7)]
+    for _ in range(ctx.n(12, 150)):
+        n = rng.randint(5, 6)
+        k = rng.randint(5, n)
+        c = QuantumCircuit(n)
+        name, make, tol = rng.choice(trs)
+        for _ in range(rng.randint(1, 2)):
+            ts = rng.sample(range(n), k)
+            ids = [rng.randint(1, 3) for _ in ts]
+            ang = rng.randint(-6, 6) * math.pi / 2 if name == "CliffordApproximationTranspiler" else nongrid_angle(rng)
+            c.add_gate(gates.Pauli(ts, ids) if rng.random() < 0.3 else gates.PauliRotation(ts, ids, ang))
+        u_in = dense.circuit_unitary(n, c.gates)
+        ctx.evaluations += 1
+        try:
+            out = make()(c)
+        except Exception as e:  # noqa: BLE001
+            ctx.count("validate.large-pauli", "raised:" + type(e).__name__)
+            continue
+        _judge(ctx, "transpile:" + name, name, n, c, u_in, out, tol, "validate.large-pauli")
+
+
+# ---- U1qNormalizeWithRZTranspiler with an explicit epsilon, on its special branches ---------------------------------------------------
+def u1q_eps_validate(ctx, TQ):
+    from oracle import dense
+    from quri_parts.circuit import QuantumCircuit
+    from quri_parts.quantinuum.circuit import U1q
+
+    rng = ctx.rng
+    for _ in range(ctx.n(60, 800)):
+        eps = rng.choice([1e-9, 1e-6, 1e-3, 1e-12])
+        th = rng.choice([0.0, -math.pi / 2, math.pi, math.pi / 2]) + rng.choice([0.0, eps / 2, -eps / 2, eps / 10])
+        ph = nongrid_angle(rng)
+        c = QuantumCircuit(2)
+        q = rng.randrange(2)
+        c.add_gate(U1q(q, th, ph))
+        ctx.evaluations += 1
+        try:
+            mk = rng.choice([lambda: TQ.U1qNormalizeWithRZTranspiler(eps), lambda: TQ.U1qNormalizeWithRZTranspiler(epsilon=eps)])
+            out = mk()(c)
+            d = dense.phase_dist(dense.circuit_unitary(2, out.gates), dense.circuit_unitary(2, c.gates))
+        except KeyError:
+            continue
+        except Exception as e:  # noqa: BLE001
+            ctx.count("validate.u1q-eps", "raised:" + type(e).__name__)
+            continue
+        tol = max(1e-6, 2 * eps)
+        ctx.count("validate.u1q-eps", "ok" if d <= tol else "MISMATCH")
+        if not d <= tol:
+            names = [g.name for g in out.gates]
+            key = "U1qNormalizeWithRZTranspiler.general-branch" if names == ["U1q", "RZ", "U1q"] else "U1qNormalize:other"
+            ctx.witness(key, f"U1qNormalizeWithRZTranspiler(epsilon={eps}) differs by {d:.3g} on an angle within epsilon/2 of a special value",
+                        {"theta": repr(th), "phi": repr(ph), "qubit": q, "out": names})
+
+
+# ---- Pauli ids outside {1,2,3} -------------------------------------------------------------------------------------------------
+def pauli_id_validate(ctx, T):
+    """`Pauli id must be either 1, 2, or 3`: a Pauli / PauliRotation gate with another id is rejected by every
+    transpiler that rewrites it (id 0 may also be read as the identity factor) – never silently rewritten"""
+    from oracle import dense
+    from quri_parts.circuit import QuantumCircuit, QuantumGate
+
+    rng = ctx.rng
+    trs = [("PauliDecomposeTranspiler", T.PauliDecomposeTranspiler), ("PauliRotationDecomposeTranspiler", T.PauliRotationDecomposeTranspiler),
+           ("RZSetTranspiler", T.RZSetTranspiler), ("RotationSetTranspiler", T.RotationSetTranspiler), ("CliffordRZSetTranspiler", T.CliffordRZSetTranspiler),
+           ("CliffordApproximationTranspiler", T.CliffordApproximationTranspiler),
+           ("ParallelDecomposer", lambda: T.ParallelDecomposer([T.PauliDecomposeTranspiler(), T.PauliRotationDecomposeTranspiler()]))]
+    for _ in range(ctx.n(120, 1500)):
+        n = rng.randint(1, 3)
+        m = rng.randint(1, n)
+        ids = [rng.randint(1, 3) for _ in range(m)]
+        ids[rng.randrange(m)] = rng.choice([0, 0, 4, 5, 7, 255])
+        kind = rng.choice(["Pauli", "PauliRotation"])
+        ang = rng.choice([0.0, math.pi / 2, math.pi, 0.7])
+        try:
+            g = QuantumGate(name=kind, target_indices=tuple(rng.sample(range(n), m)), pauli_ids=tuple(ids), params=() if kind == "Pauli" else (ang,))
+            c = QuantumCircuit(n)
+            c.add_gate(g)
+        except Exception as e:  # noqa: BLE001 – the gate cannot even be built: nothing to transpile
+            ctx.count("validate.pauli-id", "gate-rejected:" + type(e).__name__)
+            continue
+        name, make = rng.choice(trs)
+        ctx.evaluations += 1
+        try:
+            out = make()(c)
+        except Exception as e:  # noqa: BLE001 – the documented outcome
+            ctx.count("validate.pauli-id", "raised:" + type(e).__name__)
+            continue
+        if any(o.name == kind and tuple(o.pauli_ids) == tuple(ids) for o in out.gates):
+            ctx.count("validate.pauli-id", "passed-through")
+            continue
+        ok = False
+        if all(i in (0, 1, 2, 3) for i in ids):
+            try:
+                tol = 1.5 if name == "CliffordApproximationTranspiler" and ang == 0.7 else 1e-6
+                ok = dense.phase_dist(dense.circuit_unitary(n, out.gates), dense.circuit_unitary(n, c.gates)) <= tol
+            except KeyError:
+                ok = False
+        ctx.count("validate.pauli-id", "identity-reading" if ok else "SILENTLY-REWRITTEN")
+        if not ok:
+            ctx.witness("transpile:" + name, f"{name}: {kind} gate with pauli_ids {ids} was rewritten to {[o.name for o in out.gates]} instead of being rejected",
+                        describe_circ(c))
+
+
+# ---- Clifford approximation: every gate kind ------------------------------------------------------------------------------------
+def clifford_approx_extra(ctx, T):
+    """documented relation: every angle is replaced by the nearest multiple of π/2 (ties excluded here), T/Tdag (the
+    tie π/4) become S/Sdag or the identity, Clifford gates stay; kinds without a Clifford reading are refused"""
+    import numpy as np
+
+    from oracle import dense
+    from quri_parts.circuit import QuantumCircuit, gates
+
+    rng = ctx.rng
+    h = math.pi / 2
+
+    def ang():
+        k = rng.randint(-6, 6)
+        return k * h + rng.uniform(-0.6, 0.6), k * h
+
+    def circuit_pair(n, length, kinds):
+        c, e = QuantumCircuit(n), QuantumCircuit(n)  # input, expected approximation
+        for _ in range(length):
+            k = rng.choice(kinds)
+            q = rng.randrange(n)
+            if k in ("RX", "RY", "RZ", "U1"):
+                a, s = ang()
+                c.add_gate(getattr(gates, k)(q, a)); e.add_gate(getattr(gates, k)(q, s))
+            elif k == "U2":
+                (a, s), (b, t) = ang(), ang()
+                c.add_gate(gates.U2(q, a, b)); e.add_gate(gates.U2(q, s, t))
+            elif k == "U3":
+                (a, s), (b, t), (d, w) = ang(), ang(), ang()
+                c.add_gate(gates.U3(q, a, b, d)); e.add_gate(gates.U3(q, s, t, w))
+            elif k == "PauliRotation":
+                ts = rng.sample(range(n), rng.randint(1, n))
+                ids = [rng.randint(1, 3) for _ in ts]
+                a, s = ang()
+                c.add_gate(gates.PauliRotation(ts, ids, a)); e.add_gate(gates.PauliRotation(ts, ids, s))
+            elif k == "Pauli":
+                ts = rng.sample(range(n), rng.randint(1, n))
+                g = gates.Pauli(ts, [rng.randint(1, 3) for _ in ts])
+                c.add_gate(g); e.add_gate(g)
+            elif k in ("CNOT", "CZ", "SWAP"):
+                if n >= 2:
+                    x, y = rng.sample(range(n), 2)
+                    g = getattr(gates, k)(x, y)
+                    c.add_gate(g); e.add_gate(g)
+            elif k == "TOFFOLI":
+                if n >= 3:
+                    g = gates.TOFFOLI(*rng.sample(range(n), 3))
+                    c.add_gate(g); e.add_gate(g)
+            elif k == "UM1":
+                g = gates.UnitaryMatrix([q], dense.random_unitary(rng, 2).tolist())
+                c.add_gate(g); e.add_gate(g)
+            else:
+                g = getattr(gates, k)(q)
+                c.add_gate(g); e.add_gate(g)
+        return c, e
+
+    cl = ["H", "S", "Sdag", "X", "Y", "Z", "SqrtX", "SqrtXdag", "SqrtY", "SqrtYdag", "Identity", "CNOT", "CZ", "SWAP", "Pauli"]
+    rot = ["RX", "RY", "RZ", "U1", "U2", "U3", "PauliRotation"]
+    for _ in range(ctx.n(200, 3000)):
+        n = rng.randint(1, 3)
+        kinds = rot + rot + cl + (["TOFFOLI", "UM1"] if rng.random() < 0.15 else [])
+        c, e = circuit_pair(n, rng.randint(1, 6), kinds)
+        ctx.evaluations += 1
+        try:
+            out = T.CliffordApproximationTranspiler()(c)
+        except Exception as ex:  # noqa: BLE001
+            ctx.count("validate.clifford-approx", "raised:" + type(ex).__name__)
+            continue
+        try:
+            d = dense.phase_dist(dense.circuit_unitary(n, out.gates), dense.circuit_unitary(n, e.gates))
+        except KeyError:
+            ctx.count("validate.clifford-approx", "oracle-unknown-gate")
+            continue
+        ctx.count("validate.clifford-approx", "ok" if d <= 1e-7 else "MISMATCH")
+        if not d <= 1e-7:
+            ctx.witness("transpile:CliffordApproximationTranspiler", f"output is {d:.3g} away from the circuit with every angle replaced by the nearest multiple of π/2",
+                        describe_circ(c), {"dist": d})
+    for k, allowed in (("T", ("S", "Identity")), ("Tdag", ("Sdag", "Identity"))):
+        for n, q in ((1, 0), (3, 2)):
+            c = QuantumCircuit(n)
+            c.add_gate(gates.H(q)); c.add_gate(getattr(gates, k)(q)); c.add_gate(gates.H(q))
+            ctx.evaluations += 1
+            try:
+                out = T.CliffordApproximationTranspiler()(c)
+            except Exception as ex:  # noqa: BLE001
+                ctx.count("validate.clifford-approx", "raised:" + type(ex).__name__)
+                continue
+            ds = []
+            for a in allowed:
+                e = QuantumCircuit(n)
+                e.add_gate(gates.H(q)); e.add_gate(getattr(gates, a)(q)); e.add_gate(gates.H(q))
+                try:
+                    ds.append(dense.phase_dist(dense.circuit_unitary(n, out.gates), dense.circuit_unitary(n, e.gates)))
+                except KeyError:
+                    ds.append(0.0)
+            if not min(ds) <= 1e-7:
+                ctx.witness("transpile:CliffordApproximationTranspiler", f"{k} (= U1(±π/4), a tie) was replaced by neither of its nearest Clifford gates {allowed}",
+                            describe_circ(c), {"dist": min(ds)})
+
+
+def clifford_approx_correspond(ctx, T):
+    """model correspondence for the kinds `c01approx` alone does not reach: U1/U2/U3/PauliRotation are first rewritten by
+    the same decomposers as in the code (model: decomp + pauliRotDec), then every rotation is rounded (model: approxRot)"""
+    rng = ctx.rng
+    noties = [u for u in range(-200, 201) if u % 32 != 16 and u % 8 == 0] + [1, 5, 17, 33, 47, -7, 63, 65]
+    cases = []
+    for _ in range(ctx.n(40, 600)):
+        n = rng.randint(1, 3)
+        gs = qp.random_grid_circuit(rng, n, rng.randint(1, 5), ["RX", "RY", "RZ", "U1", "U2", "U3", "PauliRotation", "H", "S", "CNOT", "X", "SqrtX", "Pauli"],
+                                    angle_pool=noties)
+        cases.append((n, gs))
+    pre = "decomp:U1ToRZTranspiler,U2ToRZSqrtXTranspiler,U3ToRZSqrtXTranspiler;pauliRotDec"
+    r1 = ctx.driver([f"c01pass {n} | {pre} | {qp.enc_circuit(gs)}" for n, gs in cases])
+    ok = [(n, gs, r) for (n, gs), r in zip(cases, r1) if r.startswith("ok")]
+    if len(ok) != len(cases):
+        ctx.disagree("cliffordApprox.front-end", pre, "model rejects the decomposition request", [r for r in r1 if not r.startswith("ok")][:2])
+    r2 = ctx.driver(["c01approx " + r[3:] for _, _, r in ok])
+    for (n, gs, _), r in zip(ok, r2):
+        st, real, _ = real_transpile(T.CliffordApproximationTranspiler, n, gs)
+        ctx.case(("approx-full", n, tuple(gs)), sample=None)
+        ctx.traces += 1
+        if st == "err" or not r.startswith("ok") or qp.same_gates(real, qp.dec_circuit(r[3:])):
+            ctx.disagree("cliffordApprox.full", {"n": n, "circuit": qp.enc_circuit(gs)}, str(real)[:300], r[:300])
+
+
+# ---- deprecated factory aliases of gates.py --------------------------------------------------------------------------------------
+def factory_alias_check(ctx):
+    """`<K>Factory()(…)` is the documented (deprecated) spelling of `<K>(…)`: same gate"""
+    import warnings
+
+    from quri_parts.circuit import gates
+
+    eye2 = [[1, 0], [0, 1]]
+    eye4 = [[1 if i == j else 0 for j in range(4)] for i in range(4)]
+    args = {k: (1,) for k in qp.ONE_Q}
+    args.update({"RX": (0, 0.3), "RY": (1, -0.4), "RZ": (2, 1.5), "U1": (0, 0.2), "U2": (1, 0.2, -0.7), "U3": (2, 0.1, 0.2, 0.3),
+                 "CNOT": (0, 2), "CZ": (2, 1), "SWAP": (1, 0), "TOFFOLI": (2, 0, 1), "UnitaryMatrix": ([1, 0], eye4),
+                 "SingleQubitUnitaryMatrix": (1, eye2), "TwoQubitUnitaryMatrix": (1, 0, eye4), "Pauli": ([2, 0], [1, 3]),
+                 "PauliRotation": ([0, 1], [2, 3], 0.6), "ParametricRX": (1,), "ParametricRY": (0,), "ParametricRZ": (2,),
+                 "ParametricPauliRotation": ([1, 2], [3, 1]), "Measurement": ([0, 1], [1, 0])})
+    canon = lambda g: (g.name, tuple(g.target_indices), tuple(g.control_indices), tuple(getattr(g, "classical_indices", ())), tuple(getattr(g, "params", ())),
+                       tuple(g.pauli_ids), repr(getattr(g, "unitary_matrix", ())))
+    for k, a in args.items():
+        fac = getattr(gates, k + "Factory", None)
+        plain = getattr(gates, k, None)
+        if fac is None or plain is None:
+            ctx.count("factory-alias", "absent")
+            continue
+        ctx.evaluations += 1
+        with warnings.catch_warnings():
+            warnings.simplefilter("ignore")
+            try:
+                got = canon(fac()(*a))
+            except Exception as e:  # noqa: BLE001
+                got = "raises " + type(e).__name__
+        try:
+            exp = canon(plain(*a))
+        except Exception as e:  # noqa: BLE001
+            exp = "raises " + type(e).__name__
+        if isinstance(got, str) or isinstance(exp, str):  # an alias that refuses its arguments builds no circuit: nothing to mis-transpile
+            ctx.count("factory-alias", "raises")
+            continue
+        ctx.count("factory-alias", "same" if got == exp else "DIFFERENT")
+        if got != exp or getattr(fac, "name", exp[0] if isinstance(exp, tuple) else None) != (exp[0] if isinstance(exp, tuple) else None):
+            ctx.disagree("gate-factory-alias", {"factory": k + "Factory", "args": repr(a)}, str(got)[:300], str(exp)[:300])
+
+
+def validate_extra(ctx):
+    import importlib
+
+    def mod(name):
+        return importlib.import_module(name)
+
+    steps = [
+        ("config", lambda: config_validate(ctx, mod("quri_parts.circuit.transpile"))),
+        ("um1", lambda: um1_validate(ctx, mod("quri_parts.circuit.transpile"))),
+        ("kak-near", lambda: kak_near_validate(ctx, mod("quri_parts.circuit.transpile"))),
+        ("parametric", lambda: parametric_validate(ctx, mod("quri_parts.circuit.transpile"))),
+        ("parametric-reject", lambda: parametric_reject_validate(ctx, mod("quri_parts.circuit.transpile"))),
+        ("ionq", lambda: ionq_extra_validate(ctx, mod("quri_parts.ionq.circuit.transpile"))),
+        ("quantinuum", lambda: quantinuum_general_validate(ctx, mod("quri_parts.quantinuum.circuit.transpile"))),
+        ("large-pauli", lambda: large_pauli_validate(ctx, mod("quri_parts.circuit.transpile"))),
+        ("u1q-eps", lambda: u1q_eps_validate(ctx, mod("quri_parts.quantinuum.circuit.transpile.quantinuum_native_transpiler"))),
+        ("pauli-id", lambda: pauli_id_validate(ctx, mod("quri_parts.circuit.transpile"))),
+        ("clifford-approx", lambda: clifford_approx_extra(ctx, mod("quri_parts.circuit.transpile"))),
+        ("factory-alias", lambda: factory_alias_check(ctx)),
+    ]
+    for name, fn in steps:
+        with ctx.timed("extra." + name):
+            try:
+                fn()
+            except (AttributeError, ImportError) as e:  # a public entry point the check relies on is gone / renamed
+                ctx.disagree("entry-point-missing", name, f"{type(e).__name__}: {e}"[:300], "the transpile packages export the names used by the check")
 
 
 def describe_circ(c):
@@ -763,7 +1749,7 @@ def shrink_circuit(circ, make, tol):
         c.extend(g2)
         try:
             out = make()(c)
-            return dense.phase_dist(dense.circuit_unitary(n, out.gates), dense.circuit_unitary(n, c.gates)) > tol
+            return not dense.phase_dist(dense.circuit_unitary(n, out.gates), dense.circuit_unitary(n, c.gates)) <= tol
         except Exception:
             return False
 
@@ -834,6 +1820,12 @@ def run(ctx: Ctx, replay=None) -> int:
             check_gate_semantics(ctx)
             correspond(ctx, tp, presets)
     with ctx.timed("oracle_validation"):
-        budget = (25 if ctx.quick() else 240) * (1 if ok and not ctx.disagreements else 3)
+        budget = (18 if ctx.quick() else 200) * (1 if ok and not ctx.disagreements else 3)
         validate(ctx, budget)
+    if os.environ.get("VERIF_C01_DEBUG"):  # development aid: every witness key with its multiplicity
+        import collections
+
+        print("DEBUG witness keys:", dict(collections.Counter(w["key"] for w in ctx.witnesses)), file=sys.stderr)
+        for d in ctx.disagreements[:10]:
+            print("DEBUG disagreement:", str(d)[:600], file=sys.stderr)
     return ctx.finish()
